@@ -331,7 +331,7 @@ func (a *simAdapter) Len() int {
 	defer a.cutPoint()
 	defer a.hb()
 	if a.root.cfg.Prop == "C15" {
-		a.lens = append(a.lens, lenObs{simrt.Step(), len(a.pending), simrt.CurID()})
+		a.lens = append(a.lens, lenObs{simrt.Step(), len(a.pending), simrt.CurID(), inSelection()})
 	}
 	return len(a.pending)
 }
